@@ -5,145 +5,59 @@ Import ListNotations.
 Local Open Scope N_scope.
 
 Definition lacks (q : N) (x : list N) : bool := forallb (fun c => negb (c =? q)) x.
-
-Lemma span_not_lacks q x r : lacks q x = true -> span_not q (x ++ q :: r) = (x, q :: r).
-Proof.
-  induction x as [|c x IH]; intros H.
-  - cbn. rewrite N.eqb_refl. reflexivity.
-  - cbn in H. apply andb_true_iff in H. destruct H as [Hc Hx].
-    cbn [app span_not]. rewrite negb_true_iff in Hc. rewrite Hc, (IH Hx). reflexivity.
-Qed.
-
-Lemma lacks_app q a b : lacks q (a ++ b) = lacks q a && lacks q b.
-Proof. apply forallb_app. Qed.
-
-(* hex digits and the backslash are neither quote character, nor private use *)
-Lemma hex_digits_fuel_ok P (HP : forall d, (d <? 16) = true -> P (hex_char d) = true) :
-  forall fuel n acc, forallb P acc = true -> forallb P (hex_digits_fuel fuel n acc) = true.
-Proof.
-  induction fuel as [|f IH]; intros n acc Hacc; [exact Hacc|].
-  cbn [hex_digits_fuel]. destruct (n <? 16) eqn:E.
-  - cbn. rewrite HP by exact E. exact Hacc.
-  - apply IH. cbn. rewrite HP; [exact Hacc|]. apply N.ltb_lt. apply N.mod_lt. lia.
-Qed.
-
-Lemma hex_char_cases d : (d <? 16) = true ->
-  (hex_char d =? 34) = false /\ (hex_char d =? 39) = false /\ is_private_use (hex_char d) = false.
-Proof.
-  intros H. apply N.ltb_lt in H.
-  assert (d = 0 \/ d = 1 \/ d = 2 \/ d = 3 \/ d = 4 \/ d = 5 \/ d = 6 \/ d = 7 \/ d = 8 \/ d = 9 \/ d = 10
-          \/ d = 11 \/ d = 12 \/ d = 13 \/ d = 14 \/ d = 15) as C by lia.
-  repeat (destruct C as [C|C]; [subst d; repeat split; reflexivity|]). subst d. repeat split; reflexivity.
-Qed.
-
-Definition plain (q : N) (c : N) : bool := negb (c =? q) && negb (is_private_use c).
-
-Lemma hex_plain q n : (q = 34 \/ q = 39) -> forallb (plain q) (hex_of_N n) = true.
-Proof.
-  intros Hq. unfold hex_of_N. apply hex_digits_fuel_ok; [|reflexivity].
-  intros d Hd. destruct (hex_char_cases d Hd) as [A [B C]]. unfold plain. rewrite C.
-  destruct Hq; subst q; [rewrite A | rewrite B]; reflexivity.
-Qed.
-
-(* what Display writes for one character of a string WITHOUT the quote character
-   consists of plain characters only *)
-Lemma display_char_plain q c : (q = 34 \/ q = 39) -> (c =? q) = false ->
-  forallb (plain q) (display_char (Some q) c) = true.
-Proof.
-  intros Hq Hc. unfold display_char. rewrite Hc. destruct (is_private_use c) eqn:P.
-  - cbn [forallb]. rewrite (hex_plain q c Hq), andb_true_r. unfold plain.
-    destruct Hq; subst q; reflexivity.
-  - cbn. unfold plain. rewrite Hc, P. reflexivity.
-Qed.
-
-Lemma body_plain q v : (q = 34 \/ q = 39) -> lacks q v = true ->
-  forallb (plain q) (flat_map (display_char (Some q)) v) = true.
-Proof.
-  intros Hq. induction v as [|c r IH]; intros H; [reflexivity|].
-  cbn in H. apply andb_true_iff in H. destruct H as [Hc Hr]. rewrite negb_true_iff in Hc.
-  cbn [flat_map]. rewrite forallb_app, (display_char_plain q c Hq Hc). apply IH, Hr.
-Qed.
-
-Lemma plain_lacks q x : forallb (plain q) x = true -> lacks q x = true.
-Proof.
-  induction x as [|c r IH]; intros H; [reflexivity|]. cbn in *.
-  apply andb_true_iff in H. destruct H as [Hc Hr]. unfold plain in Hc. apply andb_true_iff in Hc.
-  destruct Hc as [Hc _]. rewrite Hc. apply IH, Hr.
-Qed.
-
-(* plain characters are printed as themselves *)
-Lemma display_plain q x : forallb (plain q) x = true -> flat_map (display_char (Some q)) x = x.
-Proof.
-  induction x as [|c r IH]; intros H; [reflexivity|]. cbn in H.
-  apply andb_true_iff in H. destruct H as [Hc Hr]. unfold plain in Hc. apply andb_true_iff in Hc.
-  destruct Hc as [Hq Hp]. rewrite negb_true_iff in Hq, Hp.
-  cbn [flat_map]. unfold display_char at 1. rewrite Hq, Hp. cbn. f_equal. apply IH, Hr.
-Qed.
-
 Definition qchar (k : quotes) : N := match k with QSingle => 39 | _ => 34 end.
 
-(* a quoted string without its own quote character reads back to the same text *)
-Lemma roundtrip k v : k <> QNone -> lacks (qchar k) v = true ->
+(* characters the reader copies and Display writes as they are, or - the quote itself -
+   escapes and un-escapes: everything but the backslash and private-use characters *)
+Definition simple (c : N) : bool := negb (c =? 92) && negb (is_private_use c).
+
+(* reading what Display wrote for the body, up to the closing quote, gives the value back:
+   ALSO when the value contains the string's own quote character *)
+Lemma read_display q v rest : (q = 34 \/ q = 39) -> forallb simple v = true ->
+  read_body q (flat_map (display_char (Some q)) v ++ q :: rest) = Some (v, rest).
+Proof.
+  intros Hq. induction v as [|c r IH]; intros H.
+  - cbn. rewrite N.eqb_refl. reflexivity.
+  - cbn in H. apply andb_true_iff in H. destruct H as [Hc Hr]. unfold simple in Hc.
+    apply andb_true_iff in Hc. destruct Hc as [H92 Hp]. rewrite negb_true_iff in H92, Hp.
+    cbn [flat_map]. unfold display_char at 1.
+    destruct (N.eqb_spec c q) as [e|ne].
+    + subst c. cbn [app read_body]. rewrite H92.
+      assert (E92 : (92 =? q) = false) by (destruct Hq; subst q; reflexivity).
+      rewrite E92. rewrite N.eqb_refl. rewrite N.eqb_refl. rewrite (IH Hr). reflexivity.
+    + rewrite Hp. cbn [app read_body]. apply N.eqb_neq in ne. rewrite ne, H92. rewrite (IH Hr). reflexivity.
+Qed.
+
+Lemma roundtrip k v : k <> QNone -> forallb simple v = true ->
   reprint (mkStr v k) = Some (css_display (mkStr v k), []).
 Proof.
   intros Hk Hv. unfold reprint. cbn [s_q].
   assert (Hq : quote_char k = Some (qchar k)) by (destruct k; try reflexivity; congruence).
   assert (Hq2 : qchar k = 34 \/ qchar k = 39) by (destruct k; auto).
-  rewrite Hq. unfold css_display. cbn [s_q s_val]. rewrite Hq.
-  set (q := qchar k) in *. set (body := flat_map (display_char (Some q)) v).
-  assert (HP : forallb (plain q) body = true) by (apply body_plain; assumption).
+  rewrite Hq. unfold css_display at 1. cbn [s_q s_val]. rewrite Hq.
   unfold read_quoted. rewrite N.eqb_refl.
-  rewrite (span_not_lacks q body [] (plain_lacks q body HP)). rewrite N.eqb_refl.
-  rewrite (display_plain q body HP). reflexivity.
+  change (flat_map (display_char (Some (qchar k))) v ++ [qchar k])
+    with (flat_map (display_char (Some (qchar k))) v ++ qchar k :: []).
+  rewrite (read_display (qchar k) v [] Hq2 Hv). reflexivity.
 Qed.
 
-(* F12: with the quote character inside, the reader stops at the escaped quote *)
-Lemma refuted_quote :
-  reprint (mkStr [97;34;98] QDouble) = Some ([34;97;92;34], [98;34]).
+(* through the value parser (pref_dquotes): for the quoting rsass itself chooses *)
+Lemma roundtrip_value k v : k <> QNone -> forallb simple v = true ->
+  pref_dquotes (mkStr v k) = mkStr v k ->
+  reprint_value (mkStr v k) = Some (css_display (mkStr v k), []).
+Proof.
+  intros Hk Hv Hp. unfold reprint_value. cbn [s_q].
+  assert (Hq : quote_char k = Some (qchar k)) by (destruct k; try reflexivity; congruence).
+  assert (Hq2 : qchar k = 34 \/ qchar k = 39) by (destruct k; auto).
+  rewrite Hq. unfold css_display at 1. cbn [s_q s_val]. rewrite Hq.
+  unfold read_quoted. rewrite N.eqb_refl.
+  change (flat_map (display_char (Some (qchar k))) v ++ [qchar k])
+    with (flat_map (display_char (Some (qchar k))) v ++ qchar k :: []).
+  rewrite (read_display (qchar k) v [] Hq2 Hv). rewrite Hp. reflexivity.
+Qed.
+
+(* the former F12 witness: a, double quote, b in double quotes - with a single quote too, so
+   that double quotes stay the preferred quoting - now reads back *)
+Lemma escaped_quote_reads_back :
+  reprint_value (mkStr [97;34;98;39;99] QDouble) = Some (css_display (mkStr [97;34;98;39;99] QDouble), []).
 Proof. vm_compute. reflexivity. Qed.
-
-(* ---- with the re-quoting the value parser applies (pref_dquotes) ---- *)
-Lemma contains_lacks q x : lacks q x = true -> contains q x = false.
-Proof.
-  induction x as [|c r IH]; intros H; [reflexivity|]. cbn in *.
-  apply andb_true_iff in H. destruct H as [Hc Hr]. rewrite negb_true_iff in Hc.
-  rewrite N.eqb_sym, Hc. apply IH, Hr.
-Qed.
-
-Lemma body_keeps_dquote v : lacks 39 v = true -> contains 34 v = true ->
-  contains 34 (flat_map (display_char (Some 39)) v) = true.
-Proof.
-  induction v as [|c r IH]; intros Hl Hc; [discriminate|].
-  cbn in Hl. apply andb_true_iff in Hl. destruct Hl as [Hc39 Hr].
-  cbn [flat_map]. unfold contains in *. rewrite existsb_app. cbn [existsb] in Hc.
-  destruct (N.eqb_spec 34 c) as [e|ne].
-  - subst c. reflexivity.
-  - cbn in Hc. rewrite (IH Hr Hc). apply orb_true_r.
-Qed.
-
-Lemma roundtrip_value_dq v : lacks 34 v = true ->
-  reprint_value (mkStr v QDouble) = Some (css_display (mkStr v QDouble), []).
-Proof.
-  intros Hv. unfold reprint_value. cbn [s_q quote_char]. unfold css_display at 1. cbn [s_q s_val quote_char].
-  set (body := flat_map (display_char (Some 34)) v).
-  assert (HP : forallb (plain 34) body = true) by (apply body_plain; [left; reflexivity | exact Hv]).
-  unfold read_quoted. rewrite N.eqb_refl.
-  rewrite (span_not_lacks 34 body [] (plain_lacks 34 body HP)). rewrite N.eqb_refl.
-  unfold pref_dquotes. cbn [s_val s_q]. rewrite (contains_lacks 34 body (plain_lacks 34 body HP)). cbn [andb].
-  unfold css_display. cbn [s_q s_val quote_char]. rewrite (display_plain 34 body HP). reflexivity.
-Qed.
-
-Lemma roundtrip_value_sq v : lacks 39 v = true -> contains 34 v = true ->
-  reprint_value (mkStr v QSingle) = Some (css_display (mkStr v QSingle), []).
-Proof.
-  intros Hv Hd. unfold reprint_value. cbn [s_q quote_char]. unfold css_display at 1. cbn [s_q s_val quote_char].
-  set (body := flat_map (display_char (Some 39)) v).
-  assert (HP : forallb (plain 39) body = true) by (apply body_plain; [right; reflexivity | exact Hv]).
-  unfold read_quoted. rewrite N.eqb_refl.
-  rewrite (span_not_lacks 39 body [] (plain_lacks 39 body HP)). rewrite N.eqb_refl.
-  unfold pref_dquotes. cbn [s_val s_q].
-  rewrite (contains_lacks 39 body (plain_lacks 39 body HP)).
-  assert (Hb : contains 34 body = true) by (apply body_keeps_dquote; assumption).
-  rewrite Hb. cbn [negb orb].
-  unfold css_display. cbn [s_q s_val quote_char]. rewrite (display_plain 39 body HP). reflexivity.
-Qed.
